@@ -30,7 +30,7 @@ SHIM = os.path.join(VERIF, 'shim')
 
 CLANG_FLAGS = ['-std=c++17', '-O2', '-mllvm', '-inline-threshold=5000', '-DNDEBUG', '-fno-vectorize',
                '-fno-slp-vectorize', '-fno-unroll-loops', '-ffp-contract=off', '-fignore-exceptions',
-               '-fno-threadsafe-statics', '-fno-access-control', '-DFSV_IR', '-w']
+               '-fno-threadsafe-statics', '-fno-access-control', '-DFSV_IR', '-w', '-gline-tables-only']
 GXX_FLAGS = ['-std=c++17', '-O1', '-DNDEBUG', '-ffp-contract=off', '-fno-access-control', '-w']
 
 _lock = threading.Lock()
@@ -131,7 +131,8 @@ def build_unit(unit, udefs, shim=True, check_nsw=False, log=None):
         if rc != 0:
             raise BuildError('clang failed for %s %s:\n%s' % (unit, udefs, e[-3000:]))
         cmd = [sys.executable, os.path.join(VERIF, 'tools', 'll2c.py'), ll, '-o', os.path.join(d, 'unit.c'),
-               '--header', os.path.join(d, 'unit.h'), '--info', os.path.join(d, 'tx.json')]
+               '--header', os.path.join(d, 'unit.h'), '--info', os.path.join(d, 'tx.json'),
+               '--dbgmap', os.path.join(d, 'dbgmap.json')]
         if check_nsw:
             cmd.append('--check-nsw')
         rc, o, e, w2, _ = sh(cmd, timeout=600)
@@ -204,6 +205,42 @@ def differential(u, harness, hdefs, count, seed):
             if res['first_fail'] is None:
                 res['first_fail'] = a
     return res
+
+
+def loop_unwindset(u, harness, hdefs, rules):
+    """per-loop bounds: rules = [(regex over '<source basename>:<function>', bound)], first match wins.
+    Loops of the translated unit are attributed to library source functions through the debug locations that
+    clang attached to the IR branch instructions (dbgmap.json written by ll2c)"""
+    d = u['dir']
+    cmd = ['cbmc', os.path.join(d, 'unit.c'), os.path.join(HARN, harness), '-I' + RT, '-I' + d, '-I' + HARN,
+           '-I' + tables_dir(), '--function', 'fsv_harness'] + dflags(hdefs) + ['--show-loops', '--json-ui']
+    rc, o, e, w, _ = sh(cmd, timeout=300)
+    try:
+        js = json.loads(o)
+    except Exception:
+        raise BuildError('show-loops failed: ' + (o[-500:] + e[-500:]))
+    dbg = json.load(open(os.path.join(d, 'dbgmap.json')))
+    out = {}
+    desc = {}
+    for item in js:
+        for lp in item.get('loops', []) if isinstance(item, dict) else []:
+            loc = lp.get('sourceLocation', {})
+            f = loc.get('file', '')
+            key = None
+            if f.endswith('unit.c'):
+                m = dbg.get(str(loc.get('line')))
+                if m:
+                    key = '%s:%s' % (os.path.basename(m[0] or ''), m[2])
+            else:
+                key = '%s:%s' % (os.path.basename(f), loc.get('function'))
+            if key is None:
+                continue
+            for rx, b in rules:
+                if re.search(rx, key):
+                    out[lp['name']] = b
+                    desc[lp['name']] = key
+                    break
+    return out, desc
 
 
 CBMC_BASE = ['--no-standard-checks', '--no-malloc-may-fail', '--drop-unused-functions', '--unwinding-assertions',
@@ -324,7 +361,7 @@ def replay(u, harness, hdefs, cex_path, translated=False):
 class Query:
     def __init__(self, qid, unit, harness, udefs=None, hdefs=None, unwind=None, unwindset=None, safety=False,
                  timeout=600, expect='pass', kf=None, diff=200, solver='auto', shim=True, check_nsw=False,
-                 note='', bounds=None, mem_gb=12, extra=None, want='property', sat_cap=40):
+                 note='', bounds=None, mem_gb=12, extra=None, want='property', sat_cap=40, loops=None):
         self.qid, self.unit, self.harness = qid, unit, harness
         self.udefs, self.hdefs = udefs or {}, hdefs or {}
         self.unwind, self.unwindset, self.safety, self.timeout = unwind, unwindset, safety, timeout
@@ -339,6 +376,7 @@ class Query:
         self.mem_gb = mem_gb
         self.extra = extra
         self.want = want          # which failure class decides this query: 'property' or 'safety'
+        self.loops = loops        # [(regex over 'file:function', bound)] -> --unwindset via debug locations
         self.sat_cap = sat_cap    # solver='auto': seconds given to the SAT back end before falling back to cbmc --cvc5
 
 
@@ -357,12 +395,18 @@ def run_query(q, prop, seed, outdir):
     try:
         if q.diff:
             r['differential'] = differential(u, q.harness, q.hdefs, q.diff, seed)
+        if q.loops:
+            us, desc = loop_unwindset(u, q.harness, q.hdefs, q.loops)
+            q.unwindset = dict(q.unwindset or {}, **us)
+            r['unwindset'] = q.unwindset
+            r['unwindset_sources'] = desc
+
         def solve(witness):
             kw = dict(witness=witness, trace=not witness, mem_gb=q.mem_gb, extra=q.extra)
             saf = q.safety and not witness
             if q.solver != 'auto':
                 return run_cbmc(u, q.harness, q.hdefs, q.unwind, q.unwindset, saf, q.timeout, solver=q.solver, **kw)
-            r1 = run_cbmc(u, q.harness, q.hdefs, q.unwind, q.unwindset, saf, min(q.sat_cap, q.timeout), solver=None, **kw)
+            r1 = run_cbmc(u, q.harness, q.hdefs, q.unwind, q.unwindset, saf, min(q.sat_cap, q.timeout), solver='cadical', **kw)
             if r1['status'] == 'TIMEOUT' or (r1['status'] == 'ERROR' and 'out of memory' in ' '.join(r1['errors'])):
                 r2 = run_cbmc(u, q.harness, q.hdefs, q.unwind, q.unwindset, saf, q.timeout, solver='cvc5', **kw)
                 r2['wall_s'] = round(r2['wall_s'] + r1['wall_s'], 2)
